@@ -189,3 +189,32 @@ Proof.
   - destruct L as [_ [_ [Hx [rest Hc]]]]. exfalso. apply (H x); [rewrite Hc; apply in_or_app; right; left; reflexivity|exact Hx].
   - destruct L as [_ [_ [e [He _]]]]. exists e. exact He.
 Qed.
+
+(* ---------- no allocation in the whole loop (C17) ---------- *)
+
+Lemma exec_allocs_sub cmd sp : forall l len,
+  (forall c, In c l -> In c (comps_of cmd sp)) ->
+  exec_allocs (len, prealloc_capacity cmd sp) l = false.
+Proof.
+  induction l as [|c r IH]; intros len H; [reflexivity|].
+  cbn [exec_allocs]. rewrite (exec_never_reallocates cmd sp len c) by (apply H; left; reflexivity).
+  cbn [orb]. apply IH. intros c' Hc. apply H. right. exact Hc.
+Qed.
+
+Theorem no_alloc_in_exec_loop cmd sp : child_exec_allocs cmd sp = false.
+Proof. unfold child_exec_allocs. apply exec_allocs_sub. auto. Qed.
+
+Theorem longest_fits cmd sp : (longest_assembled cmd sp <= prealloc_capacity cmd sp)%nat.
+Proof.
+  unfold longest_assembled.
+  assert (forall l, (forall c, In c l -> In c (comps_of cmd sp)) ->
+                    (fold_right (fun c m => Nat.max (length (concat c) + 1) m) 0 l <= prealloc_capacity cmd sp)%nat) as G.
+  { induction l as [|c r IH]; intros H; [cbn; lia|]. cbn [fold_right].
+    assert (length (concat c) + 1 <= prealloc_capacity cmd sp)%nat.
+    { pose proof (H c (or_introl eq_refl)) as Hin. destruct sp as [p|].
+      - cbn [comps_of] in Hin. apply in_map_iff in Hin. destruct Hin as [d [<- Hd]].
+        pose proof (proj1 (prealloc_suffices cmd p) d Hd) as B. cbn [concat]. rewrite !app_length. cbn [length]. lia.
+      - destruct Hin as [<-|[]]. cbn [concat]. rewrite app_nil_r. unfold prealloc_capacity. lia. }
+    specialize (IH (fun c' Hc => H c' (or_intror Hc))). lia. }
+  apply G. auto.
+Qed.
